@@ -80,6 +80,7 @@ impl World {
         if shimmed {
             shim::disarm_failure();
         }
+        tx_res(&mut self.tx, &res);
         let pc = pos_class(sc.m_seq, sc.m_over);
         cov.hit(&format!("seal.{}.{}.{:?}.{}", pc, if inplace { "inplace" } else { "alloc" }, sc.cfg.suite.aead, out_class_s(&res)));
         cov.sig_event("Seal", &format!("{}{}", pc, out_class_s(&res)));
@@ -468,6 +469,7 @@ impl World {
             OpenApi::SingleShotInPlace => su.ss_open_in_place(&rc.mode_r, &rc.sk_r, &rc.enc, &rc.cfg.info, &body, aad, &tag),
         };
         cov.ops += 1;
+        tx_res(&mut self.tx, &res);
         let pc = pos_class(pseq, pover);
         let oc = out_class_s(&res);
         cov.hit(&format!("deliver.{}.{}.{:?}.{:?}.{}", pc, label, api, rc.cfg.suite.aead, oc));
@@ -725,6 +727,7 @@ impl World {
             }
         };
         cov.ops += 1;
+        tx_res(&mut self.tx, &res);
         let lclass = if len == 0 {
             "0"
         } else if len == 255 * nh {
@@ -951,6 +954,20 @@ fn fault_brief(f: &Fault) -> String {
         Fault::WrongAad(b) => format!("WrongAad({}B)", b.len()),
         Fault::Garbage(b) => format!("Garbage({}B)", b.len()),
         other => format!("{:?}", other),
+    }
+}
+
+pub fn tx_res(tx: &mut crate::util::Fnv, r: &Result<Vec<u8>, Fail>) {
+    match r {
+        Ok(v) => {
+            tx.put(b"ok");
+            tx.put_u64(v.len() as u64);
+            tx.put(v)
+        }
+        Err(f) => {
+            tx.put(b"err");
+            tx.put(short(f).as_bytes())
+        }
     }
 }
 
